@@ -181,6 +181,8 @@ def run(check, mirror, tier):
     jobs.append(lambda c: decide(c, crate, "cycles/find_cycle", setup_cycle, post_cycle, replay_cycle, rb, models=MODELS, unwind=2 * NN * (DD + 1) + 4,
                                  describe=desc, budget_s=900, min_paths=4, timeout_ms=20000, known_predicates=KNOWN_PRED, unwound_is_violation=True,
                                  need_reach=["reach:cyclic", "reach:acyclic"]))
+    from checks import C12_edges
+    C12_edges.jobs_for(check, mirror, rb, crate, jobs, tier)
     # the evaluation closure of a decision service (dangling output decision references must not panic; shared with C11's output side)
     from checks import C11_output
     C11_output.jobs_for(check, mirror, rb, crate, fv.Universe(mirror), jobs, tier, KNOWN_PRED)
